@@ -1,14 +1,16 @@
 (* MigrateInv: a migrated book satisfies the invariant, so every theorem about native orders applies to converted
    bids (C15 "a converted bid then behaves like a native one"). *)
 From ATS Require Import Prelude Dec DecFacts Uuid Semver Types Contract Tactics Spec Inv InvAsk InstProofs AskProofs
-  BidFacts InvBid InvStep MigrateProofs.
+  ExactFacts BidFacts InvBid InvStep MigrateProofs.
 
 (* the stored book before migration: asks as in the invariant; every current-format bid consistent; every old-format
    bid has a well-formed log, i.e. its conversion is a consistent bid *)
+Definition price_within (c : cfg) (b : bid) : Prop :=
+  forall p, dec_parse (b_price b) = Some p -> within_precision p (cf_precision c).
 Definition slot_ok (c : cfg) (k : string) (s : bslot) : Prop :=
   match s with
-  | SlotV3 b => bid_ok c k b
-  | SlotV2 o => exists b, convert_bid o = Ok b /\ bid_ok c k b
+  | SlotV3 b => bid_ok c k b /\ price_within c b
+  | SlotV2 o => exists b, convert_bid o = Ok b /\ bid_ok c k b /\ price_within c b
   end.
 Record MigPre (st : state) (c : cfg) : Prop := mkMigPre {
   mp_cfg : st_cfg st = Some c /\ cfg_ok c;
@@ -50,14 +52,17 @@ Proof.
     + exists (e_crate_name e), (e_pkg_version e), ver. auto.
     + intros c2 k a Hc2 Hl. injection Hc2 as <-. eapply ask_ok_market; [exact Hm|]. apply Ha. exact Hl.
     + exact Hna.
-  - constructor; cbn.
-    + intros c2 k s Hc2 Hl. injection Hc2 as <-.
-      destruct (convert_slots_lookup_inv _ _ _ _ _ Hconv Hl) as (s0 & Hl0 & Hs0). specialize (Hb k s0 Hl0).
+  - assert (Hall : forall k s, lookup k bids' = Some s -> exists b, s = SlotV3 b /\ bid_ok c k b /\ price_within c b).
+    { intros k s Hl. destruct (convert_slots_lookup_inv _ _ _ _ _ Hconv Hl) as (s0 & Hl0 & Hs0). specialize (Hb k s0 Hl0).
       destruct s0 as [b|o]; cbn in Hb.
-      * subst s. exists b. split; [reflexivity|]. eapply bid_ok_market; eauto.
-      * destruct (req_window v).
-        -- destruct Hs0 as (b & Hcb & ->). destruct Hb as (b2 & Hcb2 & Hok). rewrite Hcb in Hcb2. injection Hcb2 as <-.
-           exists b. split; [reflexivity|]. eapply bid_ok_market; eauto.
-        -- subst s. exfalso. eapply Hno2. cbn. exact Hl.
+      - subst s. exists b. destruct Hb. auto.
+      - destruct (req_window v).
+        + destruct Hs0 as (b & Hcb & ->). destruct Hb as (b2 & Hcb2 & Hok & Hwp). rewrite Hcb in Hcb2. injection Hcb2 as <-. eauto.
+        + subst s. exfalso. eapply Hno2. cbn. exact Hl. }
+    constructor; cbn.
+    + intros c2 k s Hc2 Hl. injection Hc2 as <-. destruct (Hall k s Hl) as (b & -> & Hok & _).
+      exists b. split; [reflexivity|]. eapply bid_ok_market; eauto.
     + unfold keys_nodup. rewrite (convert_slots_keys _ _ _ Hconv). exact Hnb.
+    + intros c2 k b p Hc2 Hl Hp. injection Hc2 as <-. destruct (Hall k _ Hl) as (b0 & Hb0 & _ & Hwp). injection Hb0 as <-.
+      cbn [migrated_cfg cf_precision]. apply Hwp. exact Hp.
 Qed.
